@@ -365,7 +365,11 @@ func genConfig(r *mon.Rng, dir string, p ports, st *state) string {
 	q := func(s string) string { return fmt.Sprintf("%q", s) }
 	fmt.Fprintf(&b, "instance = \"default\"\nlog_level = \"error\"\nspool_dir = %s\n", q(filepath.Join(dir, "spool")))
 	fmt.Fprintf(&b, "listen_addr = \"127.0.0.1:%d\"\npickle_addr = \"127.0.0.1:%d\"\nadmin_addr = \"127.0.0.1:%d\"\nhttp_addr = \"127.0.0.1:%d\"\n", p.plain, p.pickle, p.admin, p.http)
-	fmt.Fprintf(&b, "bad_metrics_max_age = %s\n", q(r.Pick([]string{"24h", "1s", "1ms", "24h", "24h", "1s", "0s", "-1s", "5ns", "10ns", "", "1", "2562047h", "-2562047h"})))
+	maxAge := r.Pick([]string{"24h", "1s", "1ms", "24h", "10ns", "2562047h"})
+	if r.Chance(1, 7) {
+		maxAge = r.Pick([]string{"0s", "-1s", "5ns", "", "1", "-2562047h", "0"})
+	}
+	fmt.Fprintf(&b, "bad_metrics_max_age = %s\n", q(maxAge))
 	fmt.Fprintf(&b, "validation_level_legacy = %s\nvalidation_level_m20 = %s\nvalidate_order = %v\n", q(r.Pick([]string{"none", "medium", "strict"})), q(r.Pick([]string{"none", "medium"})), r.Chance(1, 4))
 	if r.Chance(1, 3) {
 		fmt.Fprintf(&b, "plain_read_timeout = %s\npickle_read_timeout = %s\n", q(r.Pick([]string{"1s", "0s", "100ms", "2m"})), q(r.Pick([]string{"1s", "0s", "2m"})))
@@ -394,7 +398,7 @@ func genConfig(r *mon.Rng, dir string, p ports, st *state) string {
 		if !r.Chance(1, 14) {
 			fmt.Fprintf(&b, "regex = %s\n", q(r.Pick([]string{"^servers\\.(dc[0-9]+)\\.(app|proxy)[0-9]+\\.(.*)", "(.*)", "^foo"})))
 		}
-		fmt.Fprintf(&b, "format = %s\ninterval = %d\nwait = %d\n", q(r.Pick([]string{"agg.$1", "aggregates.$1.$2.$3.sum", "x"})), r.PickInt([]int{0, 1, 10, 60, 60, 10, 5, 30, 1, -1, 10, 60, 36028797018963968, 9223372037}), r.PickInt([]int{0, 1, 20, 20, 120, -5, 36028797018963968}))
+		fmt.Fprintf(&b, "format = %s\ninterval = %d\nwait = %d\n", q(r.Pick([]string{"agg.$1", "aggregates.$1.$2.$3.sum", "x"})), r.PickInt([]int{0, 1, 10, 60, 60, 10, 5, 30, 1, -1, 10, 60, 5, 30, 10, 36028797018963968, 9223372037}), r.PickInt([]int{0, 1, 20, 20, 120, -5, 20, 120, 36028797018963968}))
 		if r.Bool() {
 			fmt.Fprintf(&b, "cache = %v\ndropRaw = %v\n", r.Bool(), r.Chance(1, 4))
 		}
